@@ -104,11 +104,22 @@ where
     let mut peak_b = 0.0f64;
     let mut const_feeds = 0usize;
     let mut done = 0;
+    // input shape "one loud frame, then a long stretch ~1e-9 times quieter" (float formats): anything that
+    // tracks signal energy incrementally loses the quiet frames to cancellation
+    let mut quiet_left = 0i64;
     loop {
         let fed = hist.len();
         let op = src.next_op(|r| {
             if done >= steps {
                 return None;
+            }
+            if quiet_left > 0 {
+                quiet_left -= 1;
+                return Some(if r.chance(1, 6) { Op::ka(O_INTERP, f2i(draw_x(r))) } else { Op::new(O_FEED, r.range(0, 256), r.range(0, 256), 1) });
+            }
+            if F::IS_FLOAT && r.chance(1, 60) {
+                quiet_left = 3 * depth as i64 + r.range(0, 8);
+                return Some(Op::new(O_FEED, 0, 0, 2));
             }
             Some(match r.below(20) {
                 0 => Op::k(O_RESET),
@@ -124,8 +135,10 @@ where
                 if fed > 0 {
                     obs.inflight();
                 }
-                let a: Vec<f64> = (0..chans).map(|ch| val(op.a, ch, amp)).collect();
-                let b: Vec<f64> = (0..chans).map(|ch| val(op.b, ch, amp)).collect();
+                // c = 1: a frame ~1e-9 times quieter than usual; c = 2: a full-amplitude frame
+                let scale = if !F::IS_FLOAT { 1.0 } else if op.c == 1 { 3.0e-9 } else { 1.0 };
+                let a: Vec<f64> = (0..chans).map(|ch| if op.c == 2 { amp } else { (val(op.a, ch, amp) + amp * 0.01) * scale }).collect();
+                let b: Vec<f64> = (0..chans).map(|ch| val(op.b, ch, amp) * scale).collect();
                 let c: Vec<f64> = a.iter().zip(b.iter()).map(|(a, b)| alpha * a + beta * b).collect();
                 let fa = F::from_f64s(&a);
                 sa.next_source_frame(fa);
@@ -432,7 +445,7 @@ impl Scenario for SincScenario {
         if tier == "quick" {
             150_000
         } else {
-            4_000_000
+            10_000_000
         }
     }
     fn run(&self, src: &mut Source, obs: &mut Observer) -> Result<(), Violation> {
